@@ -235,9 +235,10 @@ Print Assumptions C18_model_meets_oracle.
 
 (* the loop of executeRequest/ResponseModifiers on values, for every list and initial value:
    the invoked modifiers are those of the order model, the i-th of them sees the initial
-   value followed by the tags of the modifying modifiers before it (a non-wrapper result
-   and an unchanged wrapper hand the previous value on), and the value left after the loop
-   is the initial one plus the tags of all modifying modifiers - none if one failed *)
+   value as changed, one after the other, by the modifiers before it (`steps`: a modifying
+   one appends its tag, a stripping one empties the value, a non-wrapper result and an
+   unchanged wrapper hand the previous value on), and the value left after the loop is
+   `steps` over the whole list - none if one failed *)
 Theorem C18_threading : forall lv l v,
   thread lv l v = (seen_decl lv l v, out_decl lv l v) /\
   map fst (fst (thread lv l v)) = called l.
@@ -247,7 +248,7 @@ Print Assumptions C18_threading.
 (* the value seen at configured index i, explicitly *)
 Theorem C18_seen_at : forall lv l v i p b,
   Forall notfail (firstn i l) -> nth_error l i = Some (p, b) ->
-  nth_error (seen_decl lv l v) i = Some (p, (v ++ tags lv (firstn i l))%list).
+  nth_error (seen_decl lv l v) i = Some (p, steps lv (firstn i l) v).
 Proof. exact seen_at. Qed.
 Print Assumptions C18_seen_at.
 
@@ -260,26 +261,47 @@ Theorem C18_values_layer : forall lv R s inner v,
 Proof. exact plugin_vmw_decl. Qed.
 Print Assumptions C18_values_layer.
 
-(* the whole stack when nothing fails: the backend receives the client's value plus the
-   endpoint's then the backend's request tags; the caller receives the backend's value plus
-   the backend's then the endpoint's response tags *)
+(* the whole stack when nothing fails: the backend receives the client's value as changed by
+   the endpoint's then the backend's request modifiers; the caller receives the backend's
+   value as changed by the backend's then the endpoint's response modifiers *)
 Theorem C18_values_stack : forall R pe pb v t0,
   Forall notfail (configured_req R (shape_names pe)) -> Forall notfail (configured_resp R (shape_names pe)) ->
   Forall notfail (configured_req R (shape_names pb)) -> Forall notfail (configured_resp R (shape_names pb)) ->
   vstack R pe pb (Some t0) v =
   ((vreq LEndpoint (seen_decl LEndpoint (configured_req R (shape_names pe)) v) ++
-    (vreq LBackend (seen_decl LBackend (configured_req R (shape_names pb)) (v ++ tags LEndpoint (configured_req R (shape_names pe)))) ++
-     [VBackend ((v ++ tags LEndpoint (configured_req R (shape_names pe))) ++ tags LBackend (configured_req R (shape_names pb)))] ++
+    (vreq LBackend (seen_decl LBackend (configured_req R (shape_names pb)) (steps LEndpoint (configured_req R (shape_names pe)) v)) ++
+     [VBackend (steps LBackend (configured_req R (shape_names pb)) (steps LEndpoint (configured_req R (shape_names pe)) v))] ++
      vresp LBackend (seen_decl LBackend (configured_resp R (shape_names pb)) t0)) ++
-    vresp LEndpoint (seen_decl LEndpoint (configured_resp R (shape_names pe)) (t0 ++ tags LBackend (configured_resp R (shape_names pb)))))%list,
-   VRet ((t0 ++ tags LBackend (configured_resp R (shape_names pb))) ++ tags LEndpoint (configured_resp R (shape_names pe)))%list).
+    vresp LEndpoint (seen_decl LEndpoint (configured_resp R (shape_names pe)) (steps LBackend (configured_resp R (shape_names pb)) t0)))%list,
+   VRet (steps LEndpoint (configured_resp R (shape_names pe)) (steps LBackend (configured_resp R (shape_names pb)) t0))).
 Proof. exact vstack_all_ok. Qed.
 Print Assumptions C18_values_stack.
+
+(* without a stripping modifier the value only grows: the initial value followed by the tags
+   of the modifying modifiers, in configured order *)
+Theorem C18_steps_tags : forall lv l v,
+  Forall (fun m => strips (snd m) = false) l -> steps lv l v = (v ++ tags lv l)%list.
+Proof. exact steps_tags. Qed.
+Print Assumptions C18_steps_tags.
+
+(* a modifier that strips the value (nil headers / params) is not undone: whatever the
+   client sent and the earlier modifiers added is gone for everything after it *)
+Theorem C18_strip_not_undone : forall lv pre p post v,
+  steps lv (pre ++ (p, BStrip) :: post) v = steps lv post [].
+Proof. exact steps_strip. Qed.
+Print Assumptions C18_strip_not_undone.
+
+(* the factory applies both middlewares whatever the endpoint's output encoding is *)
+Theorem C18_stack_any_encoding : forall enc ss R pe pb r e t0 v,
+  factory_stack enc ss R pe pb r e = endpoint_stack ss R pe pb r e /\
+  factory_vstack enc R pe pb t0 v = vstack R pe pb t0 v.
+Proof. intros. split; reflexivity. Qed.
+Print Assumptions C18_stack_any_encoding.
 
 (* forgetting the values of a run gives exactly the call log of the order model (so
    C18_order and its corollaries speak about the same run) *)
 Theorem C18_values_refine_order : forall lv rq rs inner v li ri x,
-  inner (v ++ tags lv rq)%list = (li, ri) ->
+  inner (steps lv rq v) = (li, ri) ->
   map erase (fst (plugin_vrun lv rq rs inner v)) =
   fst (plugin_run lv rq rs (map erase li,
                             match ri with VRet _ => ORet (Some x) ENone | VNone => ORet None ENone end)).
@@ -383,4 +405,10 @@ Example C18_ex_values :
       VResp LBackend 1 [(LBackend, 99)];
       VResp LEndpoint 0 [(LBackend, 99)]; VResp LEndpoint 3 [(LBackend, 99); (LEndpoint, 0)]],
      VRet [(LBackend, 99); (LEndpoint, 0); (LEndpoint, 3)]).
+Proof. vm_compute. reflexivity. Qed.
+
+(* a stripping request modifier: the backend gets none of the client's value *)
+Example C18_ex_strip :
+  vstack exR (PNames [(CStr "rq0", BModify); (CStr "rq1", BStrip)]) PNoNamespace (Some []) [(LEndpoint, 77)]
+  = ([VReq LEndpoint 0 [(LEndpoint, 77)]; VReq LEndpoint 1 [(LEndpoint, 77); (LEndpoint, 0)]; VBackend []], VRet []).
 Proof. vm_compute. reflexivity. Qed.
